@@ -7,6 +7,43 @@ CHECKS = {
         'text': 'For every instance of the families (degrees, knot multiplicity patterns, sizes, sample sizes) z3 shows for ALL parameters, control points and positive weights (and all knot values for p<=3) that evaluate_single / evaluate_list / derivatives(order 0) / evaluator.evaluate / the sampled grid equal the Cox-de Boor definition on every feasible path of the real code.',
         'note': COMMON_NOTE + 'Bounds: quick p<=3, thorough p<=5; <=3 distinct interior knots; grids up to 5 (9 thorough) samples; surfaces to (3,3), volumes to (2,2,2).',
     },
+    'C02': {
+        'text': 'Derivatives returned by both evaluator families, the hodograph constructors and tangent/normal are shown equal (for all parameters, nets, weights) to the FORMAL derivative of the Cox-de Boor definition on the polynomial piece containing the parameter (rational shapes: additionally the inductive quotient-rule characterisation for orders >= 2); unit length / orthogonality modulo s^2 = arg rewrite rules.',
+        'note': COMMON_NOTE + 'Bounds: curves p<=3 (4), orders 0..p+2, rational orders <=2 (3); surfaces degrees <=2 (3), rational surface orders <=3 on the bilinear patch; derivative from the right, u < domain end; normalised vectors assumed non-zero.',
+    },
+    'C03': {
+        'text': 'Span search (linear == binary == definition), basis_function (>=0, sum 1, == Cox-de Boor, == one/all variants), derivative variants (== formal derivative, sum 0), multiplicity, knot vector generation / normalisation / validation: decided for all parameters (and all knot values for p<=3) per multiplicity pattern.',
+        'note': COMMON_NOTE + 'Bounds: p<=5 (7); <=3 interior knots; snap-zone precondition (parameter equal to a knot or >1e-5 away); ders order <= degree.',
+    },
+    'C04': {
+        'text': 'For all insertion parameters (inside a span or on a knot of any multiplicity, enumerated by the explorer), all evaluation parameters, nets and weights: the shape is unchanged after insert_knot (operations and object wrappers), knot vector/sizes grow as specified, over-multiplicity is rejected leaving the object unchanged; histories of 2 (3) insertions with independent symbolic parameters.',
+        'note': COMMON_NOTE + 'Bounds: curves p<=3 (4), surfaces degrees<=2 (3,2), volumes degrees<=2; clamped knot vectors; snap-zone precondition on the inserted parameter.',
+    },
+    'C05': {
+        'text': 'refine_knotvector for every direction subset and density, and helper-level knot_refinement with explicit / symbolic additional knots: evaluated points unchanged for all parameters, nets, weights; refined knot vector equals the dyadic specification; unselected directions untouched.',
+        'note': COMMON_NOTE + 'Bounds: densities<=2 (3), curves p<=3 (4), surfaces degrees<=2, volumes degrees<=2; concrete knots at object level.',
+    },
+    'C06': {
+        'text': 'insert r then remove r2<=r (any direction, one or several directions per call, operations and wrappers), and refine-then-remove: evaluated points equal the original for all parameters/nets/weights/insertion parameters, sizes and knot vectors reduced exactly, control points restored when r2==r.',
+        'note': COMMON_NOTE + 'Bounds: curves p<=3 (4), surfaces degrees<=2 (3), volumes degrees<=2 (3); removable = created by insertion/refinement.',
+    },
+    'C07': {
+        'text': 'split_curve / split_surface_u|v at any interior parameter and decompose_curve / decompose_surface(u|v|uv): every piece equals the original under the affine map of its domain for all local parameters, nets, weights; input unmodified; domain ends rejected; piece count/order/Bezier knot vectors as specified.',
+        'note': COMMON_NOTE + 'Bounds: curves p<=3 (4), surfaces to (3,2) with unequal degrees and >=2 interior knots; snap-zone precondition on the split parameter.',
+    },
+    'C16': {
+        'text': 'lu_solve / lu_factor / matrix_inverse / matrix_determinant / matrix_pivot / lu_decomposition satisfy A x = b, A A^-1 = I, Leibniz, genuine permutation, L U = A for ALL symbolic matrices of the stated sizes on every pivoting path; diagonally dominant and collocation matrices always return; two-call histories (memoised identity matrix); vector/matrix helpers, binomial, linspace, frange equal their definitions.',
+        'note': COMMON_NOTE + 'Bounds: n<=3 (4 for lu_solve), pivoting routines n=3 partly concrete in quick; results claimed only when a result is returned. Known finding: matrix_determinant on 3x3 with a zero pivot after static pivoting.',
+    },
+    'C17': {
+        'text': 'find_span_func linear vs binary, evaluator default vs alternative, normalize_kv True vs False under a SYMBOLIC affine knot range (alpha>0, beta), all give identical points/derivatives (scaled by alpha^-k) for all parameters/nets/weights; the lru_cache maxsize expressions extracted from the current source are checked by CrossHair for every decimal GEOMDL_CACHE_SIZE (or unset), plus symbolic C04/C06/C16 runs in subprocesses under {unset,1,16,1024}.',
+        'note': COMMON_NOTE + 'num_procs (multiprocessing schedules) is NOT covered by this technique. CrossHair verdict trusted for the str->int conversion; Bounds: curves p<=3, surfaces degrees<=2 (3,2), one volume.',
+        'technique': 'bounded symbolic execution + z3 (pairs of configurations); CrossHair symbolic execution of the AST-extracted lru_cache maxsize expressions over a symbolic environment string',
+    },
+    'C19': {
+        'text': '__eq__/__ne__ executed on pairs that differ in exactly one component by a symbolic delta (every homogeneous coordinate, weight, knot) or in a discrete component (degree, size, kind, rationality, dimension): equal only if |delta| < 1e-3, unequal only if delta != 0, symmetric, reflexive, deep copies equal.',
+        'note': COMMON_NOTE + 'The property leaves the tolerance open; 1e-3 is demanded as an upper bound on it. Shapes: curve p2, surface (1,2), volume (1,1,1) (+ larger in thorough).',
+    },
 }
 
 _TODO = 'check not built yet in this session (work in progress, see DESIGN.md section 4)'
